@@ -155,8 +155,36 @@ func runORDER(e *Env) (*Summary, error) {
 					}
 				}
 				where := pick(r, []string{"key >= ''", "key ^= 'a' | key ^= 'b' | key ^= 'k'", "is_int(value)", "value != 'x'", "key in ('a', 'b', 'k1', 'k2', 'zz')"})
+				if r.Chance(1, 4) {
+					// point reads over a listed key set: shuffled, with repeated keys and absent keys, as an
+					// IN list or a chain of equalities (the scan order of such plans is what `order by key asc`
+					// relies on when the planner drops the sort)
+					pool := []string{"a", "a1", "ab", "b", "b1", "ba", "c", "k1", "k2", "k3", "l", "m", "zz", ""}
+					nk := 2 + r.Intn(7)
+					var ks []string
+					for i := 0; i < nk; i++ {
+						if i > 0 && r.Chance(1, 3) {
+							ks = append(ks, ks[r.Intn(len(ks))]) // a repeated key
+						} else {
+							ks = append(ks, pick(r, pool))
+						}
+					}
+					if r.Bool() {
+						q := make([]string, len(ks))
+						for i, k := range ks {
+							q[i] = "'" + k + "'"
+						}
+						where = "key in (" + strings.Join(q, ", ") + ")"
+					} else {
+						q := make([]string, len(ks))
+						for i, k := range ks {
+							q[i] = "key = '" + k + "'"
+						}
+						where = strings.Join(q, " | ")
+					}
+				}
 				if strings.Contains(strings.Join(sel, ","), "int(value)") {
-					where = "is_int(value)"
+					where = "(" + where + ") & is_int(value)"
 				}
 				no := 1 + r.Intn(min(3, len(fs)))
 				type ord struct {
